@@ -340,6 +340,9 @@ enum SOp {
     DropSnapshot(usize),
     DropOwned(usize),
     DropHandle,
+    /// an updater panics between lock() and replace(): the update mutex is poisoned from then
+    /// on, later updaters recover the guard from the PoisonError
+    PanicWhileLocked,
 }
 
 fn sequential(ctx: &Ctx, depth: usize) {
@@ -374,6 +377,7 @@ fn sequential(ctx: &Ctx, depth: usize) {
         let acc: std::cell::RefCell<Vec<MapEvent>> = std::cell::RefCell::new(take_global_log());
         let mut ever: Vec<(u64, usize, usize, u32)> = vec![(0x10_0000, ptr_of[&0x10_0000].0, acc.borrow().len(), 0)];
         let mut bad: Option<(String, String)> = None;
+        let mut poisoned = false;
         let mut apply = |op: &SOp, handles: &mut Vec<Atomic>, snaps: &mut Vec<(vm_memory::GuestMemoryLoadGuard<Mem>, Vec<Inst>)>, owned: &mut Vec<(Arc<Mem>, Vec<Inst>)>, current: &mut Vec<Inst>| -> bool {
             match op {
                 SOp::CloneHandle => {
@@ -388,6 +392,18 @@ fn sequential(ctx: &Ctx, depth: usize) {
                         return false;
                     }
                     handles.pop();
+                }
+                SOp::PanicWhileLocked => {
+                    if poisoned {
+                        return false;
+                    }
+                    let h = handles.last().unwrap();
+                    let _ = crate::crash::quiet_unwind(|| {
+                        let _g = h.lock().unwrap_or_else(|e| e.into_inner());
+                        let _cur = h.memory();
+                        std::panic::panic_any(0u8);
+                    });
+                    poisoned = true;
                 }
                 SOp::Snapshot => {
                     let h = handles.last().unwrap();
@@ -435,7 +451,7 @@ fn sequential(ctx: &Ctx, depth: usize) {
                     acc.borrow_mut().extend(take_global_log());
                     ever.push((*s, r.as_ptr() as usize, acc.borrow().len(), next_id));
                     let h = &handles[0];
-                    let g = h.lock().unwrap();
+                    let g = h.lock().unwrap_or_else(|e| e.into_inner());
                     let new = h.memory().insert_region(r).unwrap();
                     g.replace(new);
                     current.push((*s, next_id));
@@ -452,7 +468,7 @@ fn sequential(ctx: &Ctx, depth: usize) {
                     acc.borrow_mut().extend(take_global_log());
                     ever.push((*s, r.as_ptr() as usize, acc.borrow().len(), next_id));
                     let h = handles.last().unwrap();
-                    let g = h.lock().unwrap();
+                    let g = h.lock().unwrap_or_else(|e| e.into_inner());
                     let cur = h.memory();
                     let new = if current.len() == 1 {
                         GuestMemoryMmap::from_arc_regions(vec![r]).unwrap()
@@ -473,7 +489,7 @@ fn sequential(ctx: &Ctx, depth: usize) {
                     // (removing the last region publishes an empty map; every other time an
                     // emptied map is published as a freshly constructed one)
                     let h = handles.last().unwrap();
-                    let g = h.lock().unwrap();
+                    let g = h.lock().unwrap_or_else(|e| e.into_inner());
                     let (new, _removed) = h.memory().remove_region(GuestAddress(*s), 4096).unwrap();
                     if current.len() == 1 && serial % 2 == 1 {
                         drop(new);
@@ -570,11 +586,11 @@ fn sequential(ctx: &Ctx, depth: usize) {
         sl.sort();
         let mut ol: Vec<Vec<Inst>> = owned.iter().map(|s| canon(&s.1)).collect();
         ol.sort();
-        let key: Key = (canon(&current), sl, ol, handles.len());
+        let key: Key = (canon(&current), sl, ol, handles.len() | if poisoned { 1 << 8 } else { 0 });
         if !seen.insert(key) || hist.len() >= depth {
             continue;
         }
-        let mut ops = vec![SOp::CloneHandle, SOp::DropHandle, SOp::Snapshot];
+        let mut ops = vec![SOp::CloneHandle, SOp::DropHandle, SOp::Snapshot, SOp::PanicWhileLocked];
         for i in 0..snaps.len() {
             ops.push(SOp::CloneSnapshot(i));
             ops.push(SOp::IntoInner(i));
@@ -618,7 +634,7 @@ fn trivial_address_spaces(ctx: &Ctx) {
 
 pub fn run(tier: Tier, replay: Option<String>) -> i32 {
     let ctx = crate::new_ctx("C11", tier, "model_checking", &replay);
-    ctx.set_rule("E3: stateless DFS over the interleavings, within the stated preemption bound, of real updater threads (lock; memory(); derive a map with one more / one less region or with one region swapped for a fresh one of the same range; replace; unlock) and reader threads (memory(); read regions and tags; clone the snapshot; into_inner; drop; re-read; drop) on one GuestMemoryAtomic<GuestMemoryMmap> shared through cloned handles, or (three configurations) through one handle that all threads use by reference; scheduling points: every ArcSwap load/store and Mutex lock/unlock of the crate (hook H3, blocking on the update mutex modelled) plus the harness steps between a reader's operations. Oracle per schedule: every snapshot is exactly one published map (maps compared as lists of (start, region instance)), readable (tags through the mappings), unchanged when re-read; snapshots taken after a replacement completed show it; the final map contains every updater's region; no deadlock; after all handles are dropped every region was munmap'ed exactly once (interposed log). E1: BFS over all sequential histories up to the stated depth of {clone handle, drop handle, snapshot, clone snapshot, into_inner, drop snapshot/owned, lock+replace with insert/remove (down to the empty map, published as derived or as GuestMemoryMmap::new())/swap (same range, fresh region)}, state = (current map, held snapshots, owned maps, handles), with the owner-graph invariant mapped <=> reachable checked against the interposed munmap log in every state.");
+    ctx.set_rule("E3: stateless DFS over the interleavings, within the stated preemption bound, of real updater threads (lock; memory(); derive a map with one more / one less region or with one region swapped for a fresh one of the same range; replace; unlock) and reader threads (memory(); read regions and tags; clone the snapshot; into_inner; drop; re-read; drop) on one GuestMemoryAtomic<GuestMemoryMmap> shared through cloned handles, or (three configurations) through one handle that all threads use by reference; scheduling points: every ArcSwap load/store and Mutex lock/unlock of the crate (hook H3, blocking on the update mutex modelled) plus the harness steps between a reader's operations. Oracle per schedule: every snapshot is exactly one published map (maps compared as lists of (start, region instance)), readable (tags through the mappings), unchanged when re-read; snapshots taken after a replacement completed show it; the final map contains every updater's region; no deadlock; after all handles are dropped every region was munmap'ed exactly once (interposed log). E1: BFS over all sequential histories up to the stated depth of {clone handle, drop handle, snapshot, clone snapshot, into_inner, drop snapshot/owned, an updater that panics while it holds the update lock (later updaters recover the guard from the PoisonError), lock+replace with insert/remove (down to the empty map, published as derived or as GuestMemoryMmap::new())/swap (same range, fresh region)}, state = (current map, held snapshots, owned maps, handles), with the owner-graph invariant mapped <=> reachable checked against the interposed munmap log in every state.");
     ctx.assume("ArcSwap::load/store are treated as atomic steps (arc_swap internals execute for real but are not interleaved internally); SC");
     if let Some(r) = ctx.replay_of.clone() {
         let c = &r["case"];
@@ -646,6 +662,9 @@ pub fn run(tier: Tier, replay: Option<String>) -> i32 {
         Config { name: "2-updaters-one-shared-handle", updaters: vec![vec![0x20_0000], vec![0x30_0000]], readers: 0, bound: None, share_handle: true },
         Config { name: "2-updaters-1-reader-one-shared-handle", updaters: vec![vec![0x20_0000], vec![0x30_0000]], readers: 1, bound: Some(if thorough { 4 } else { 2 }), share_handle: true },
         Config { name: "updater-2-rounds-vs-updater-one-shared-handle", updaters: vec![vec![0x20_0000, REMOVE | 0x10_0000], vec![0x30_0000]], readers: 0, bound: Some(if thorough { 5 } else { 3 }), share_handle: true },
+        // the published map passes through the empty map
+        Config { name: "remove-only-region-then-insert-vs-reader", updaters: vec![vec![REMOVE | 0x10_0000, 0x20_0000]], readers: 1, bound: if thorough { None } else { Some(3) }, share_handle: false },
+        Config { name: "remover-to-empty-vs-inserter-vs-reader", updaters: vec![vec![REMOVE | 0x10_0000], vec![0x30_0000]], readers: 1, bound: Some(if thorough { 4 } else { 2 }), share_handle: true },
         // same layout, new memory: the replacement must be published like any other
         Config { name: "swap-region-vs-reader", updaters: vec![vec![SWAP | 0x10_0000]], readers: 1, bound: None, share_handle: false },
         Config { name: "insert-then-swap-vs-2-readers", updaters: vec![vec![0x20_0000, SWAP | 0x20_0000]], readers: 2, bound: Some(if thorough { 3 } else { 2 }), share_handle: false },
